@@ -20,6 +20,7 @@ import TrVerif.Props.C12FullRev
 import TrVerif.Props.C12FullRoute
 import TrVerif.Props.C12FullRouteDep
 import TrVerif.Props.C12FullAlt
+import TrVerif.Props.C12Window
 namespace Tr
 
 def nvDs : Dataset :=
